@@ -67,7 +67,9 @@ def build_harness(release=False, features=()):
     # keep one copy per feature set: later builds with other features overwrite target/<profile>/yv
     tag = ("rel" if release else "dev") + ("-" + "-".join(sorted(features)) if features else "")
     dst = os.path.join(workdir("bin"), "yv-" + tag)
-    shutil.copy2(src, dst)
+    tmp = dst + ".%d.tmp" % os.getpid()
+    shutil.copy2(src, tmp)
+    os.replace(tmp, dst)          # atomic: another check may be executing the old copy
     log(f"[build] harness {tag} {time.time()-t0:.1f}s")
     _built[key] = dst
     return dst
